@@ -31,7 +31,7 @@ def array_keys(arr_target, name):
 
     shape, chunks = arr_target.shape, arr_target.chunks
     aid = int(name.rsplit("-", 1)[1])
-    nb = [max(1, math.ceil(n / c)) if n > 0 else 1 for n, c in zip(shape, chunks)]
+    nb = [max(1, math.ceil(n / c)) if n > 0 else 0 for n, c in zip(shape, chunks)]   # a zero-length axis has no stored chunks (zarr nchunks == 0)
     return [(aid, tuple(b)) for b in itertools.product(*[range(n) for n in nb])]
 
 
@@ -59,6 +59,7 @@ def work(part, n):
         # ops of the finalized plan in topological order with their output chunk keys
         import networkx as nx
         ops = []
+        out_ids = {}
         for name in nx.topological_sort(plan.dag):
             d = plan.dag.nodes[name]
             if d.get("pipeline") is None:
@@ -70,6 +71,8 @@ def work(part, n):
                 if t is not None and isinstance(t, LazyZarrArray):
                     keys.extend(array_keys(t, o))
             ops.append((name, always, keys))
+            out_ids[name] = [int(o.rsplit("-", 1)[1]) for o, t in outs if t is not None and isinstance(t, LazyZarrArray)]
+        ops0 = ops
         points = [("task", i) for i in range(0, T + 1)] + [("write", j) for j in range(0, W + 1)]
         if part.tier == "quick":
             points = part.rng.sample(points, min(len(points), 5))
@@ -123,6 +126,13 @@ def work(part, n):
             if wiped or any(e[1] == "delete" for e in b.trace.events):
                 part.fail("resume-wiped-chunks", f"chunks present at restart were removed: {wiped[:3]}", desc)
             # model prediction of the skipped ops
+            # an output array whose metadata was never created is incomplete whatever its chunk count (a zero-length array has
+            # no chunk keys at all): it is represented by one extra key per output array that is present iff the metadata is
+            meta = {int(key.split("/")[0].rsplit("-", 1)[1]) for key in before
+                    if key.endswith("zarr.json") and key.count("/") == 1 and key.split("/")[0].rsplit("-", 1)[-1].isdigit()}
+            SENT = (9999,)
+            present = sorted(set(present) | {(a_, SENT) for a_ in meta})
+            ops = [(nm, al, list(ks) + [(a_, SENT) for a_ in out_ids[nm]]) for nm, al, ks in ops0]
             opt = "[" + "; ".join(f"({cbool(al)}, {keys_term(keys)})" for _, al, keys in ops) + "]"
             skipped_real = [name not in ran for name, _, _ in ops]
             part.case("resume_decisions", {"expr": f"boollist_eqb (resume_skips {keys_term(present)} {opt}) [" + "; ".join(cbool(x) for x in skipped_real) + "]",
